@@ -33,6 +33,8 @@ type c15Case struct {
 	// Len: how the body reaches net/http: "" a reader of known length | unknown (a reader type whose length the
 	// client does not know: ContentLength 0 with a body) | chunked (ContentLength -1, as a server sees a chunked body)
 	Len string `json:"len,omitempty"`
+	// Empty: the schema has no fields at all (an endpoint without parameters): the request is decoded all the same
+	Empty bool `json:"empty,omitempty"`
 }
 
 const c15Multipart = "--x\r\nContent-Disposition: form-data; name=\"name\"\r\n\r\nM-name\r\n--x\r\nContent-Disposition: form-data; name=\"opt\"\r\n\r\nM-opt\r\n--x\r\nContent-Disposition: form-data; name=\"tags[]\"\r\n\r\nM1\r\n--x--\r\n"
@@ -110,6 +112,9 @@ func propC15(c c15Case) hh.Verdict {
 		"opt":  z.String(z.WithCoercer(rec("opt", false))),
 		"list": z.Slice(z.String(), z.WithCoercer(rec("list", true))),
 	})
+	if c.Empty {
+		schema = z.Struct(z.Schema{})
+	}
 	target := "http://example.test/p"
 	if c.Query != "" {
 		target += "?" + c.Query
@@ -285,6 +290,13 @@ func propC15(c c15Case) hh.Verdict {
 		}
 		return v
 	}
+	if c.Empty {
+		if errs != nil || !reflect.DeepEqual(dest, sentinel) {
+			return hh.Fail("a decodable %s request and a schema without fields: expected no issues and an untouched destination, got %v / %+v", source, z.Issues.SanitizeMap(errs), dest)
+		}
+		v.Classes = append(v.Classes, "schema-without-fields")
+		return v
+	}
 	// which fields are present, by the Parse absent rule
 	for _, f := range []string{"name", "tags", "opt", "list"} {
 		pv, has := rec2[f]
@@ -414,6 +426,17 @@ func TestC15(t *testing.T) {
 			}
 		}
 	}, propC15)
+	hh.Enumerate(h, "dispatch-product-no-fields", func(yield func(c15Case)) {
+		for _, m := range c15Methods {
+			for _, ct := range []string{"", "application/json", "application/x-www-form-urlencoded", "text/plain"} {
+				for _, b := range c15Bodies {
+					for _, q := range []string{"", "name=Q-name", "name=%zz"} {
+						yield(c15Case{Method: m, CType: ct, Body: b, Query: q, Empty: true})
+					}
+				}
+			}
+		}
+	}, propC15)
 	hh.Enumerate(h, "dispatch-product-pointer-root", func(yield func(c15Case)) {
 		for _, m := range c15Methods {
 			for _, ct := range []string{"", "application/json", "application/json; charset=utf-8", "application/x-www-form-urlencoded", "text/plain"} {
@@ -434,6 +457,7 @@ func TestC15(t *testing.T) {
 			c.NotNil = rapid.Bool().Draw(rt, "notnil")
 		}
 		c.Len = rapid.SampledFrom([]string{"", "", "", "unknown", "chunked"}).Draw(rt, "len")
+		c.Empty = !c.Ptr && rapid.IntRange(0, 7).Draw(rt, "nofields") == 0
 		if rapid.IntRange(0, 3).Draw(rt, "pre") == 0 {
 			c.Pre = rapid.SampledFrom([]string{"parseform", "formvalue"}).Draw(rt, "prek")
 		}
